@@ -3,7 +3,7 @@
 # Confirms a sub-agent's seeded change: patch matches the worktree, demo fails with / passes without,
 # the 37 baseline tests still pass with it. Copies it to /verif/seeded/<id>/ with meta.json.
 ID=$1; PROP=${2:-${ID%%-*}}
-WT=/tmp/wt/$ID; SD=/tmp/seed/$ID; OUT=/verif/seeded/$ID
+WT=/tmp/wt/${ID%%-*}; SD=/tmp/seed/$ID; OUT=/verif/seeded/$ID
 set -u
 demo=$(ls $SD/demo.py $SD/demo.sh 2>/dev/null | head -1)
 [ -z "$demo" ] && { echo "$ID: no demo"; exit 2; }
